@@ -53,7 +53,7 @@ theorem yield_head : (x : Expr) → nf x = true → headK (yield x) ≠ .dot ∧
     obtain ⟨h1, h2⟩ := yield_head e (by simp only [nf, Bool.and_eq_true] at h; exact h.1)
     simp only [yield]; exact ⟨by rw [headK_append h2]; exact h1, by simp [h2]⟩
   | .index e none _, h => by
-    obtain ⟨h1, h2⟩ := yield_head e (by simp only [nf, Bool.and_eq_true] at h; exact h.1.1)
+    obtain ⟨h1, h2⟩ := yield_head e (by simp only [nf, Bool.and_eq_true] at h; exact h.1)
     simp only [yield]; exact ⟨by rw [headK_append h2]; exact h1, by simp [h2]⟩
   | .index e (some (_, _)) _, h => by
     obtain ⟨h1, h2⟩ := yield_head e (by simp only [nf, Bool.and_eq_true] at h; exact h.1.1)
